@@ -120,6 +120,7 @@ func tokensGraph() parsley.Parser {
 		text.RightTrim(terminal.Op("=="), text.WsNone),
 		lt(terminal.Regexp(nil, "ID", "identifier", "[a-z_]+", 0), text.WsSpacesNl),
 		lt(combinator.Any(terminal.Rune('+'), terminal.Rune('-')).Name("sign"), text.WsSpaces),
+		lt(parser.ReturnError(terminal.Rune('#'), prebuiltErr("!hash")), text.WsSpaces),
 	).Name("token")
 	return combinator.Sentence(text.RightTrim(combinator.Many(tokenP).Bind(concatInterp), text.WsSpacesNl))
 }
@@ -222,6 +223,16 @@ func genArith(r *Rand, depth int, sb *strings.Builder) {
 	genArith(r, depth+1, sb)
 }
 
+// identFromPool: the k-th identifier of a fixed pool (letters only).
+func identFromPool(k int) string {
+	b := []byte("v")
+	for k > 0 || len(b) < 3 {
+		b = append(b, byte('a'+k%26))
+		k /= 26
+	}
+	return string(b)
+}
+
 func mutate(r *Rand, s string, noise string) string {
 	b := []byte(s)
 	switch r.Intn(4) {
@@ -273,11 +284,15 @@ func (s *GraphSpec) genInput(r *Rand) string {
 			in += string("ab"[r.Intn(2)])
 		}
 	case "tokens":
-		toks := []string{"1", "2.5", `"s"`, "'c'", "true", "false", "nil", "1h2m", "\nlet", "==", "foo_bar", "+", "-", "0x1f", "`raw`"}
+		toks := []string{"1", "2.5", `"s"`, "'c'", "true", "false", "nil", "1h2m", "\nlet", "==", "foo_bar", "+", "-", "0x1f", "`raw`", "#"}
 		n := r.Range(0, 6)
 		for i := 0; i < n; i++ {
 			sb.WriteString([]string{" ", " ", "\n", "  ", ""}[r.Intn(5)])
-			sb.WriteString(toks[r.Intn(len(toks))])
+			if r.Chance(1, 3) {
+				sb.WriteString(identFromPool(r.Intn(1600))) // many distinct identifiers (interning, symbol tables)
+			} else {
+				sb.WriteString(toks[r.Intn(len(toks))])
+			}
 		}
 		in = sb.String()
 		if r.Chance(1, 4) {
